@@ -638,10 +638,11 @@ class PlanJoinTablesQuery:
         row_dict = None
 
         predict_target = item.predictor_info.get('to_predict')
-        if isinstance(predict_target, list) and len(predict_target) > 0:
-            predict_target = predict_target[0]
-        if predict_target is not None:
-            predict_target = predict_target.lower()
+        if isinstance(predict_target, (list, tuple)):
+            # a model without a declared target reports an empty list
+            predict_target = predict_target[0] if len(predict_target) > 0 else None
+        # anything but a column name (None, a flag, ...) means: no known target to keep out of the parameters
+        predict_target = predict_target.lower() if isinstance(predict_target, str) else None
 
         columns_map = None
         if item.join_condition:
